@@ -28,6 +28,7 @@ type Evidence struct {
 	Samples          []interface{}
 	Reached          []string
 	Bounds           []string
+	SelftestRecords  int
 }
 
 func newEvidence(prop, tier string, seed int) *Evidence {
@@ -113,6 +114,7 @@ func (ev *Evidence) write(start time.Time) {
 			"functions_encoded":             fns,
 			"functions_encoded_count":       len(fns),
 			"harnesses":                     ev.Harnesses,
+			"translator_selftest_records_agreeing_with_native": ev.SelftestRecords,
 			"replays_attempted":             ev.Replays,
 			"replays_confirmed":             ev.ReplaysConfirmed,
 			"known_findings_reported":       ev.Known,
